@@ -1,12 +1,57 @@
 package main
 
-import "path/filepath"
+import (
+	"fmt"
+	"path/filepath"
+	"strings"
+)
 
 func init() {
 	runners["C01"] = runC01
 	runners["C02"] = runC02
 	runners["C03"] = runC03
 	runners["C17"] = runC17
+	runners["C12"] = runC12
+}
+
+func opsDigest(s *engSession) string {
+	var b []string
+	for _, o := range s.ops {
+		if o["op"] == "restart" {
+			continue
+		}
+		b = append(b, fmt.Sprint(o["op"], o["res"], o["ok"], o["grounded"], o["share"], o["flights"], o["slot"]))
+	}
+	return strings.Join(b, "|")
+}
+
+func runC12(o *Out, rng *Rng, tier string, replay string) {
+	n := engCounts(tier) * 2 / 3
+	o.sum.Rule = "case = the same engine history run twice on the real code from the same random choices: once uninterrupted, once with the engine released, the database closed and reopened and a new engine created at about a quarter of the day boundaries (all promise algorithms and correction options, parameter changes during the run including switching promises off and on); every API result, the final tables and the final administrator state must be identical; the interrupted run is also compared step by step with the model, whose restart really encodes and decodes the administrator state (C12 projection = full hashes of every record, the administrator state and the table after every update); non-trivial = at least 2 restarts with a predictor holding data; distinct by script hash"
+	wd := filepath.Join(o.dir, "dbs")
+	for c := 0; c < n; c++ {
+		r := rng.Fork()
+		cfg := engCfg{nTrav: r.Range(1, 5), days: r.Range(8, 30), promises: -1, restarts: true, paramChanges: true}
+		a := genEngine(r.Clone(), wd, "C12", cfg)
+		cfg.restarts = false
+		b := genEngine(r.Clone(), wd, "none", cfg)
+		if opsDigest(a) != opsDigest(b) {
+			a.fail("C12", "restart-changed-an-api-result", "the interrupted and the uninterrupted run of the same history return different results")
+		}
+		if a.tableDigest() != b.tableDigest() {
+			a.fail("C12", "restart-changed-traveller-records", "the interrupted and the uninterrupted run end with different traveller tables")
+		}
+		if hashAdmin(a.eng.Administrator) != hashAdmin(b.eng.Administrator) {
+			a.fail("C12", "restart-changed-administrator-state", fmt.Sprintf("the interrupted and the uninterrupted run end with different administrator state (predictor %+v vs %+v)", a.eng.Administrator.VerifPredictor(), b.eng.Administrator.VerifPredictor()))
+		}
+		keepFails(o, a, "C12")
+		engNote(o, a)
+		ps := a.eng.Administrator.VerifPredictor()
+		o.AddCase(List(a.coq), a.stat["restarts"] >= 2 && len(ps.Ys) > 1, a.ops)
+		a.close()
+		b.close()
+	}
+	engFlush(o, "C12")
 }
 
 func runC17(o *Out, rng *Rng, tier string, replay string) {
